@@ -21,7 +21,7 @@ COLL_HEADER = ("From SV Require Import c11.Coll_C11.\nFrom Coq Require Import ZA
                "Import ListNotations.\nOpen Scope Z_scope.\n")
 KEYS = [0, 1, 2, -1, "a", "ab", "", (), (1,), (1, 2), (2, 1)]
 ELTS = [0, 1, 2, 3, -1, 7, 9, 2**40]
-ERR_KIND = {"E:Index": "Generic", "E:Missing": "Generic", "E:Type": "TypeMismatch", "E:Conv": "ConversionError"}
+ERR_KIND = {"E:Index": "Generic", "E:Missing": "Generic", "E:Type": "TypeMismatch", "E:Conv": "ConversionError", "E:Range": "ContractViolation"}
 MODULES = ["steel/lists", "steel/hash", "steel/sets", "steel/vectors", "steel/immutable-vectors",
            "steel/strings", "steel/bytevectors"]
 
@@ -361,6 +361,28 @@ seq("vector-fill!", MVO, ["vector-fill!"], "mut", lambda a: "(vector-fill! c %d)
 seq("mutable-vector->list", MVO, ["mutable-vector->list"], "out", lambda a: "(mutable-vector->list c)", None)
 seq("mut-vec-len", MVO, ["mut-vec-len"], "out", lambda a: "(mut-vec-len c)", None)
 seq("vector-append!", MVO, ["vector-append!"], "mut", lambda a: "(vector-append! c %s)" % val_steel("mvec", a[0]), None)
+# ---- slices / constructors / remaining pure primitives, checked against the python oracle only
+seq("ivec-copy", IV, ["immutable-vector-copy"], "out", lambda a: "(vector->list (immutable-vector-copy c %d %d))" % (a[0], a[1]), None)
+seq("ivec->list-range", IV, ["immutable-vector->list"], "out", lambda a: "(immutable-vector->list c %d %d)" % (a[0], a[1]), None)
+seq("vec-rest", IV, ["vec-rest"], "state", lambda a: "(vec-rest c)", None)
+seq("pop-front", IV, ["pop-front"], "out", lambda a: "(pop-front c)", None)
+seq("push", IV, ["push"], "state", lambda a: "(push %d c)" % a[0], None)
+seq("push-front", IV, ["push-front"], "state", lambda a: "(push-front %d c)" % a[0], None)
+seq("vector-copy", MVO, ["vector-copy"], "out", lambda a: "(vector->list (vector-copy c %d %d))" % (a[0], a[1]), None)
+seq("mutable-vector->list-range", MVO, ["mutable-vector->list"], "out", lambda a: "(mutable-vector->list c %d %d)" % (a[0], a[1]), None)
+seq("make-vector", MVO, ["make-vector"], "out", lambda a: "(vector->list (make-vector %d %d))" % (a[0], a[1]), None)
+seq("range-vec", IV, ["range-vec"], "out", lambda a: "(vector->list (range-vec %d %d))" % (a[0], a[1]), None)
+seq("memq", L, ["memq"], "out", lambda a: "(memq %d c)" % a[0], None)
+seq("cdr-null?", L, ["cdr-null?"], "out", lambda a: "(cdr-null? c)", None)
+seq("list->hashset", L, ["list->hashset"], "out", lambda a: "(hashset->list (list->hashset c))", None, True)
+seq("hash->vector", H, ["hash->vector"], "out", lambda a: "(map (lambda (p) (list (car p) (cdr p))) (vector->list (hash->vector c)))", None, True)
+seq("trim-start", T, ["trim-start"], "state", lambda a: '(trim-start (string-append "  " c " "))', None)
+seq("trim-end", T, ["trim-end"], "state", lambda a: '(trim-end (string-append " " c "  "))', None)
+seq("string-join", T, ["string-join"], "out", lambda a: '(map char->integer (string->list (string-join (list c "x" c) "-")))', None)
+seq("split-many", T, ["split-many"], "out", lambda a: '(map string-length (split-many (string-append c "," c) ","))', None)
+seq("make-string", T, ["make-string"], "out", lambda a: "(map char->integer (string->list (make-string %d #\\a)))" % a[0], None)
+seq("make-bytes", B, ["make-bytes"], "out", lambda a: "(bytes->list (make-bytes %d %d))" % (a[0], a[1]), None)
+seq("bytes-clear!", B, ["bytes-clear!"], "mut", lambda a: "(bytes-clear! c)", None)
 # whole contents
 for k_ in ("list", "mvec", "ivec", "map", "set", "string", "bytes"):
     pass
@@ -519,6 +541,14 @@ def py_step(kind, c, name, a):
         return [ord(x) for x in s.upper().lower()], None
     if o == "trim":
         return [ord(x) for x in (" " + s + "  ").strip()], None
+    if o == "trim-start":
+        return [ord(x) for x in ("  " + s + " ").lstrip()], None
+    if o == "trim-end":
+        return [ord(x) for x in (" " + s + "  ").rstrip()], None
+    if o == "string-join":
+        return c, ints_txt([ord(x) for x in "-".join([s, "x", s])])
+    if o == "split-many":
+        return c, ints_txt([len(x) for x in (s + "," + s).split(",")])
     if o == "string-contains?":
         return c, "#t" if "".join(map(chr, a[0])) in s else "#f"
     if o == "starts-with?":
@@ -566,6 +596,43 @@ def py_step(kind, c, name, a):
         return c, None
     if o == "vector-fill!":
         return [a[0]] * len(c), None
+    if o in ("ivec-copy", "ivec->list-range", "vector-copy", "mutable-vector->list-range"):
+        i, j = a
+        if j < i or j > len(c):
+            raise Stop("E:Range", o)
+        return c, ints_txt(c[i:j])
+    if o == "vec-rest":
+        if not c:
+            raise Stop("E:Range", o)
+        return c[1:], None
+    if o == "pop-front":
+        if not c:
+            raise Stop("E:Range", o)
+        return c, str(c[0])
+    if o == "push":
+        return c + [a[0]], None
+    if o == "push-front":
+        return [a[0]] + c, None
+    if o == "make-vector":
+        return c, ints_txt([a[1]] * a[0])
+    if o == "make-bytes":
+        return c, ints_txt([a[1]] * a[0])
+    if o == "make-string":
+        return c, ints_txt([97] * a[0])
+    if o == "range-vec":
+        return c, ints_txt(list(range(a[0], a[1])))
+    if o == "memq":
+        return c, (ints_txt(c[c.index(a[0]):]) if a[0] in c else "#f")
+    if o == "cdr-null?":
+        if not c:
+            raise Stop("E:Index", o)
+        return c, "#t" if len(c) == 1 else "#f"
+    if o == "list->hashset":
+        return c, unordered([str(x) for x in set(c)])
+    if o == "hash->vector":
+        return c, snap_txt("map", c)
+    if o == "bytes-clear!":
+        return [], None
     if o == "snap":
         return c, snap_txt(kind, c)
     raise ValueError(o)
@@ -668,8 +735,19 @@ def gen_args(rng, kind, name, cur):
         return (chars(), chars())
     if name == "string-replace":
         return (tuple(rng.choice([97, 98]) for _ in range(rng.choice([1, 2]))), chars())
-    if name in ("substring", "string->list-range", "bytes-copy"):
+    if name in ("substring", "string->list-range", "bytes-copy", "ivec-copy", "ivec->list-range", "vector-copy",
+                "mutable-vector->list-range"):
         return (uindex(), uindex())
+    if name in ("push", "push-front", "memq"):
+        return (elt(),)
+    if name == "make-vector":
+        return (rng.choice([0, 1, 3]), rng.choice([0, 7]))
+    if name == "make-bytes":
+        return (rng.choice([0, 1, 3]), rng.choice([0, 7, 255]))
+    if name == "make-string":
+        return (rng.choice([0, 1, 3]),)
+    if name == "range-vec":
+        return (rng.choice([0, 1, 3]), rng.choice([0, 2, 5]))
     if name in ("bytes-append", "bytes-prepend"):
         return (byts(),)
     if name == "vector-swap!":
@@ -935,7 +1013,7 @@ def first_res(res):
 
 
 def run_sequences(ck):
-    n = 900 if ck.tier == "quick" else 20000
+    n = 900 if ck.tier == "quick" else 6000       # ~0.2 s of coqc per case and shard
     cases = list(SEQ_CORPUS)
     for i in range(n):
         cases.append(gen_seq(ck.rng, with_drop_beyond=(i % 97 == 0)))
@@ -946,7 +1024,7 @@ def run_sequences(ck):
         if e is not None:
             where[ci] = len(exprs)
             exprs.append(e)
-    model = ck.coq_eval(COLL_HEADER, exprs, shard=max(20, len(exprs) // 16 + 1))
+    model = ck.coq_eval(COLL_HEADER, exprs, shard=max(20, len(exprs) // 16 + 1), timeout=1800)
     distinct, used = set(), {}
     stats = {"cases": len(cases), "with_coq_model": len(exprs), "engine_vs_oracle": 0, "model_vs_engine": 0, "errors": 0, "ok": 0}
     for ci, (kind, init, ops) in enumerate(cases):
@@ -984,7 +1062,7 @@ def run_sequences(ck):
 
 def run_binary(ck):
     """every binary operation x ownership pattern x key-overlap mode (x program shape x JIT setting)"""
-    reps = 1 if ck.tier == "quick" else 12
+    reps = 1 if ck.tier == "quick" else 6
     cases = []
     for name in BIN:
         for pat in PATTERNS:
